@@ -81,6 +81,14 @@ Theorem C20_parent : forall D K n (h : heap D K) a h' a' m t seen s1,
 Proof. exact clone_parent. Qed.
 Print Assumptions C20_parent.
 
+(** literally the statement: when the original is a tree (the structure check accepts it),
+    a new parent holding the original and the clone, under any two positions, is accepted *)
+Theorem C20_common_parent : forall D K n (h : heap D K) a h' a' m t s1 d k1 k2,
+  clone D K n h a = Some (h', a') -> abs D K m h a = Some t -> check D K m h [] a = Some s1 ->
+  exists s, check D K (S m) (h' ++ [mkNode D K d [(k1, a); (k2, a')]]) [] (length h') = Some s.
+Proof. exact clone_common_parent. Qed.
+Print Assumptions C20_common_parent.
+
 Theorem C20_sharing_rejected : forall D K n (h : heap D K) seen a,
   In a seen -> check D K n h seen a = None.
 Proof. exact check_rejects_seen. Qed.
